@@ -31,21 +31,29 @@ Proof.
   constructor; cbn; [reflexivity|lia|intros i Hi; rewrite (cur_id_same _ _ Hs); exact Hi|].
   intros p Hp. apply in_app_or in Hp. destruct Hp as [Hp|[<-|[]]]; [left; exact Hp|right; lia].
 Qed.
-Lemma kept_to_sx t s e br r y s' : to_sx t s e br = Ok (r, y, s') -> kept s s'.
+Lemma kept_to_sx_plain t s e br r y s' : to_sx_plain t s e br = Ok (r, y, s') -> kept s s'.
 Proof.
-  unfold to_sx. intros H.
-  destruct e as [n v|c|a b|a b|]; try discriminate.
+  unfold to_sx_plain. intros H.
+  destruct e as [n v|c|a b|a b|fam k sub|]; try discriminate.
   - destruct (resolve_sym t s n) as [[y1 s1]|] eqn:E1; cbn [bind] in H; [|discriminate].
     destruct (ref_attrs t v y1 br); cbn [bind] in H; [|discriminate]. inversion H; subst. eapply kept_resolve; eauto.
-  - destruct a as [n v| | | |]; try discriminate. destruct b as [|c| | |]; try discriminate.
+  - destruct a as [n v| | | | |]; try discriminate. destruct b as [|c| | | |]; try discriminate.
     destruct (resolve_sym t s n) as [[y1 s1]|] eqn:E1; cbn [bind] in H; [|discriminate].
     destruct (ref_attrs t v y1 br); cbn [bind] in H; [|discriminate]. inversion H; subst. eapply kept_resolve; eauto.
-  - destruct a as [n1 v1| | | |]; try discriminate. destruct b as [n2 v2| | | |]; try discriminate.
+  - destruct a as [n1 v1| | | | |]; try discriminate. destruct b as [n2 v2| | | | |]; try discriminate.
     destruct (resolve_sym t s n1) as [[y1 s1]|] eqn:E1; cbn [bind] in H; [|discriminate].
     destruct (negb (Nat.eqb v1 0)); [discriminate|].
     destruct (resolve_sym t s1 n2) as [[y2 s2]|] eqn:E2; cbn [bind] in H; [|discriminate].
     destruct (negb (Nat.eqb v2 0)); [discriminate|]. inversion H; subst.
     eapply kept_trans; eapply kept_resolve; eauto.
+Qed.
+Lemma kept_to_sx t s e br r y s' : to_sx t s e br = Ok (r, y, s') -> kept s s'.
+Proof.
+  unfold to_sx. intros H.
+  destruct e as [n v|c|a b|a b|fam k sub|]; try (eapply kept_to_sx_plain; exact H).
+  destruct (target_attrs fam k); [|discriminate].
+  destruct (to_sx_plain t s sub br) as [[[r0 y0] s0]|] eqn:E; cbn [bind] in H; [|discriminate].
+  inversion H; subst. eapply kept_to_sx_plain; exact E.
 Qed.
 
 (* replacing the current section by one whose last block has the same identifier *)
@@ -128,7 +136,7 @@ Proof.
   destruct (cur_sect s) as [x0|] eqn:Ex0; cbn [bind] in E; [|discriminate].
   match type of E with bind ?F _ = _ => destruct F as [s1|] eqn:Ef; cbn [bind] in E; [|discriminate] end.
   assert (K1 : kept s s1).
-  { eapply (kept_fixups t len (call || branch) (as_len x0) fx (Ok s) s1); [|exact Ef]. intros a Ea; inversion Ea; apply kept_refl. }
+  { eapply (kept_fixups t len ((call || branch) && negb indirect) (as_len x0) fx (Ok s) s1); [|exact Ef]. intros a Ea; inversion Ea; apply kept_refl. }
   destruct (append_data s1 len) as [s2|] eqn:Ea; cbn [bind] in E; [|discriminate].
   pose proof (kept_trans _ _ _ K1 (kept_append_data _ _ _ Ea)) as K2.
   pose proof (k_cur _ _ K2 _ Hi) as Hi2. unfold cur_id in Hi2.
